@@ -44,7 +44,7 @@ pub mod crypto {
     use vstd::prelude::*;
     use super::error::Error;
     verus! {
-    pub struct KeyPair { pub id: Ghost<int> }
+    pub struct KeyPair { pub key_type: KeyType, pub id: Ghost<int> }
     pub uninterp spec fn key_pem(k: KeyPair) -> Seq<u8>;          // PKCS#8 PEM of the private key
     pub uninterp spec fn pem_key(pem: Seq<u8>) -> Option<KeyPair>; // its inverse where defined
     pub struct X509Certificate { pub id: Ghost<int> }
@@ -53,8 +53,12 @@ pub mod crypto {
     pub uninterp spec fn cert_san(c: X509Certificate) -> Set<Seq<char>>; // dNSName / iPAddress subjectAltName entries as text
     // text of a set of strings (HashSet<String> seen through its elements' characters)
     pub uninterp spec fn strset(h: std::collections::HashSet<String>) -> Set<Seq<char>>;
-    #[derive(Clone, Copy)]
+    #[derive(Clone, Copy, PartialEq, Eq)]
     pub struct KeyType { pub id: u8 }
+    impl vstd::std_specs::cmp::PartialEqSpecImpl for KeyType {
+        open spec fn obeys_eq_spec() -> bool { true }
+        open spec fn eq_spec(&self, other: &KeyType) -> bool { *self == *other }
+    }
     #[derive(Clone, Copy)]
     pub struct HashFunction { pub id: u8 }
     #[derive(Clone, Copy, PartialEq, Eq, Hash)]
@@ -71,7 +75,7 @@ pub mod crypto {
     }
     // acme_common gen_keypair (unit keys): a fresh key of the requested type
     #[verifier::external_body]
-    pub fn gen_keypair(key_type: KeyType) -> (r: Result<KeyPair, Error>) { unimplemented!() }
+    pub fn gen_keypair(key_type: KeyType) -> (r: Result<KeyPair, Error>) ensures r matches Ok(k) ==> k.key_type == key_type { unimplemented!() }
     impl X509Certificate {
         #[verifier::external_body]
         pub fn from_pem(pem: &Vec<u8>) -> (r: Result<X509Certificate, Error>)
